@@ -166,3 +166,16 @@ Theorem model_is_code_int_timestamp : forall t W f, gtz_ok t -> same_obj t g_UTC
   glue_DateTime_int_timestamp (dt_of W f (Some t)) = Ok (int_timestamp (gz_zone t) W f).
 Proof. exact glue_int_timestamp. Qed.
 Print Assumptions model_is_code_int_timestamp.
+
+(* pendulum.from_timestamp(n, tz) for an integer n and a timezone object = from_timestamp_int (utcfromtimestamp, pendulum.datetime(.., tz=UTC),
+   in_timezone); DateTime.instance(native, tz) = create with the fold of the native value in (native.tzinfo or tz) *)
+From PV Require Import Model.WallHistory.
+Theorem model_is_code_from_timestamp : forall tz n, gtz_ok tz -> same_obj g_UTC tz ->
+  glue_from_timestamp n tz = res_of (Some tz) (from_timestamp_int (gz_zone tz) (gtz_is g_UTC tz) n).
+Proof. exact glue_from_timestamp_spec. Qed.
+Print Assumptions model_is_code_from_timestamp.
+
+Theorem model_is_code_instance : forall tzo tzarg W f, wall_in_range W = true ->
+  glue_DateTime_instance (dt_of W f tzo) tzarg = g_build (opt_tz_or tzo tzarg) W f false.
+Proof. exact glue_instance_spec. Qed.
+Print Assumptions model_is_code_instance.
